@@ -155,6 +155,17 @@ def gen_count_cli(rng, n, tier):
         roots = ["in"] if rng.random() < 0.5 else ["in", "in2"]
         spec = gen.gen_tree(rng, roots=roots, links=False, hidden=False, max_entries=7,
                             names=["a", "b", "c", "d", "e", "f", "g"])
+        # entries that are symbolic links to files kept in *another* directory: an entry is numbered with the
+        # directory it is listed in, wherever its content lives
+        if rng.random() < 0.25:
+            files = [p for p, v in spec.items() if isinstance(v, str)]
+            dirs = [p for p, v in spec.items() if v is None]
+            for k in range(rng.randint(1, 3)):
+                if not files:
+                    break
+                target, d = rng.choice(files), rng.choice(dirs)
+                if os.path.dirname(target) != d and d + "/l%d" % k not in spec:
+                    spec[d + "/l%d" % k] = ["link", os.path.relpath(target, d)]
         start = rng.choice([0, 1, 7, 98, 10 ** 15 - 2, 10 ** 16, 10 ** 20 + 7, 2 ** 63 - 1])
         step = rng.choice([1, 2, 10])
         width = rng.choice([0, 0, 2, 4])
